@@ -44,5 +44,9 @@ namespace vh::pk {
     std::string dump();
     int workers(RunCtx& ctx);
     int policy(RunCtx& ctx);
+    // can an idle worker take over pending work of another worker in the drawn configuration (policy, mode
+    // bits, minimum queue lengths for stealing, >= 2 workers)? Workloads in which a task polls (spins with
+    // yields) while the task it waits for may sit in its own worker's queue need this: see C01's known finding.
+    bool steals(RunCtx& ctx);
 
 }    // namespace vh::pk
